@@ -172,6 +172,10 @@ var Shapes = []Shape{
 	{"map-bin-nested", "map", typeOf[map[string]any](), func(r *rand.Rand, size int) any {
 		return map[string]any{"a": map[string]any{"b": map[string]any{"c": Bytes(r, size/2)}}, "top": Bytes(r, size-size/2), "s": "x"}
 	}},
+	// nil Binary leaves, alone in the packet: a nil Binary is still a binary leaf (empty attachment)
+	{"Binary-nil", "top", typeOf[Binary](), func(r *rand.Rand, _ int) any { return Binary(nil) }},
+	{"S2-nil", "struct-value", typeOf[S2](), func(r *rand.Rand, _ int) any { return S2{Bin: nil, N: r.Intn(100)} }},
+	{"[]Binary-nil", "slice", typeOf[[]Binary](), func(r *rand.Rand, _ int) any { return []Binary{nil} }},
 	{"[]Binary", "slice", typeOf[[]Binary](), func(r *rand.Rand, size int) any {
 		n := 1 + r.Intn(3)
 		out := make([]Binary, n)
